@@ -37,6 +37,7 @@ from base64 import b64encode
 from itertools import chain
 
 from lxml import etree
+from lxml.etree import XMLSyntaxError
 
 from email import generator
 from email.mime.multipart import MIMEMultipart
@@ -44,6 +45,7 @@ from email.mime.application import MIMEApplication
 from email.encoders import encode_7or8bit
 
 from spyne import ValidationError
+from spyne.model.fault import Fault
 from spyne.util import six
 from spyne.model.binary import ByteArray, File
 from spyne.const.xml import NS_XOP
@@ -57,7 +59,8 @@ else:
 XPATH_NSDICT = dict(xop=NS_XOP)
 
 
-def _join_attachment(ns_soap_env, href_id, envelope, payload, prefix=True):
+def _join_attachment(ns_soap_env, href_id, envelope, payload, prefix=True,
+                                                                   parser=None):
     """Places the data from an attachment back into a SOAP message, replacing
     its xop:Include element or href.
 
@@ -69,10 +72,17 @@ def _join_attachment(ns_soap_env, href_id, envelope, payload, prefix=True):
                       content-location.  It prefixes a "cid:" to the href value.
     :param  envelope: soap envelope string to be operated on
     :param  payload:  attachment data
+    :param  parser:   the ``lxml.etree.XMLParser`` instance to parse the
+                      envelope with. Incoming requests must be parsed with the
+                      parser options of the protocol, not with lxml's defaults.
     """
 
     # grab the XML element of the message in the SOAP body
-    soaptree = etree.fromstring(envelope)
+    try:
+        soaptree = etree.fromstring(envelope, parser)
+    except XMLSyntaxError as e:
+        raise Fault('Client.XMLSyntaxError', str(e))
+
     soapbody = soaptree.find("{%s}Body" % ns_soap_env)
 
     if soapbody is None:
@@ -101,7 +111,7 @@ def _join_attachment(ns_soap_env, href_id, envelope, payload, prefix=True):
     return etree.tostring(soaptree), num
 
 
-def collapse_swa(ctx, content_type, ns_soap_env):
+def collapse_swa(ctx, content_type, ns_soap_env, parser=None):
     """
     Translates an SwA multipart/related message into an application/soap+xml
     message.
@@ -117,6 +127,8 @@ def collapse_swa(ctx, content_type, ns_soap_env):
     :param  content_type: value of the Content-Type header field, parsed by
                           cgi.parse_header() function
     :param  ctx:          request context
+    :param  parser:       the ``lxml.etree.XMLParser`` instance to parse the
+                          soap part with
     """
 
     envelope = ctx.in_string
@@ -180,13 +192,13 @@ def collapse_swa(ctx, content_type, ns_soap_env):
         # Check for Content-ID and make replacement
         if cid:
             soapmsg, numreplaces = _join_attachment(
-                                             ns_soap_env, cid, soapmsg, payload)
+                              ns_soap_env, cid, soapmsg, payload, parser=parser)
 
         # Check for Content-Location and make replacement
         if cloc and not cid and not numreplaces:
             soapmsg, numreplaces = _join_attachment(
                                             ns_soap_env, cloc, soapmsg, payload,
-                                                                          False)
+                                                           False, parser=parser)
 
     if soapmsg is None:
         raise ValidationError(None, "Invalid MtoM request")
